@@ -82,6 +82,21 @@ func c11Leaf() *RangeQ {
 }
 
 func genGrouping(r *vk.RNG) (grouped, without bool, names []string) {
+	grouped, without, names = genGrouping0(r)
+	if len(names) >= 1 && r.Chance(1, 4) {
+		// a grouping clause is a set of names: a name written twice (next to itself or further on) changes nothing
+		dup := names[r.Intn(len(names))]
+		if r.Bool() {
+			names = append(append([]string{}, names...), dup)
+		} else {
+			at := r.Intn(len(names) + 1)
+			names = append(append(append([]string{}, names[:at]...), dup), names[at:]...)
+		}
+	}
+	return grouped, without, names
+}
+
+func genGrouping0(r *vk.RNG) (grouped, without bool, names []string) {
 	switch r.Intn(7) {
 	case 0:
 		return false, false, nil
@@ -456,6 +471,119 @@ func runC11(r *vk.Run) {
 	})
 	r.Require("avg_groups_with_overflowing_sum", 50)
 	r.Require("avg_groups_with_infinite_members", 30)
+
+	// stdvar / stddev over groups whose members are large next to their spread (unix times, byte counters)
+	// or equal fractions that have no exact binary form: the variance of finite inputs is a non-negative
+	// number, the deviation its root (never NaN), and both are the two-pass values computed exactly
+	r.Phase("spread", r.N(400, 40000), func(c *vk.Case) {
+		rng := c.Rng
+		var recs []Rec
+		used := map[string]bool{}
+		kind := c.Idx % 3
+		base := vk.Pick(rng, []string{"1700000000", "1000000000", "1000000000000", "4102444800", "65536000", "9007199254740000"})
+		frac := vk.Pick(rng, []string{"0.1", "0.7", "1.1", "3.3", "0.3", "100.01", "1e-7", "2.2e5"})
+		for i := 0; i < rng.Range(3, 9); i++ {
+			l := map[string]string{"job": "j", "a": vk.Pick(rng, []string{"x", "y"}), "b": vk.Pick(rng, []string{"p", "q", "r", "s", "t", "u"})}
+			if used[labelKey(l)] {
+				continue
+			}
+			used[labelKey(l)] = true
+			var v string
+			switch kind {
+			case 0: // a large common part, a small spread
+				v = base[:len(base)-2] + fmt.Sprintf("%02d", rng.Intn(30))
+			case 1: // all members equal
+				v = frac
+			default: // equal but for one
+				v = frac
+				if i == 0 {
+					v = "0.5"
+				}
+			}
+			recs = append(recs, Rec{TS: metricT0 + 5e8 + int64(rng.Intn(3000))*1e6, Line: "v=" + v, Labels: l})
+		}
+		sortRecs(recs)
+		env := &MEnv{Recs: recs, Msg: env0.Msg, UnwrapKeeps: env0.UnwrapKeeps, CmpFalse: env0.CmpFalse, CmpFalseBool: env0.CmpFalseBool}
+		leaf := c11Leaf()
+		op := vk.Pick(rng, []string{"stdvar", "stddev"})
+		byA := rng.Bool()
+		text := op + "(" + leaf.Text() + ")"
+		if byA {
+			text = op + " by (a) (" + leaf.Text() + ")"
+		}
+		T := metricT0 + 4e9
+		res, err := evalQuery(&MemQuerier{Recs: recs, ErrAfter: -1}, text, EvalP{Start: T, End: T})
+		c.Eval(1)
+		det := map[string]any{"query": text, "records": recs, "result": res}
+		if err != nil {
+			c.Fail("", "query failed: "+text+": "+err.Error(), det)
+			return
+		}
+		members := map[string][]float64{}
+		for _, sv := range leaf.Eval(env, T).M {
+			g := ""
+			if byA {
+				g = sv.L["a"]
+			}
+			members[g] = append(members[g], sv.V)
+		}
+		if len(res.Series) != len(members) {
+			c.Fail("", fmt.Sprintf("%s: %d series, expected %d groups", text, len(res.Series), len(members)), det)
+			return
+		}
+		for _, s := range res.Series {
+			g := s.Labels["a"]
+			xs := members[g]
+			if len(xs) == 0 || len(s.Points) != 1 {
+				c.Fail("", fmt.Sprintf("%s: unexpected series %v", text, s.Labels), det)
+				return
+			}
+			// exact two-pass variance
+			prec := uint(400)
+			sum := new(big.Float).SetPrec(prec)
+			for _, x := range xs {
+				sum.Add(sum, new(big.Float).SetPrec(prec).SetFloat64(x))
+			}
+			n := new(big.Float).SetPrec(prec).SetInt64(int64(len(xs)))
+			mean := new(big.Float).SetPrec(prec).Quo(sum, n)
+			ss := new(big.Float).SetPrec(prec)
+			maxDev := 0.0
+			for _, x := range xs {
+				d := new(big.Float).SetPrec(prec).Sub(new(big.Float).SetPrec(prec).SetFloat64(x), mean)
+				if df, _ := d.Float64(); math.Abs(df) > maxDev {
+					maxDev = math.Abs(df)
+				}
+				ss.Add(ss, new(big.Float).SetPrec(prec).Mul(d, d))
+			}
+			want, _ := new(big.Float).SetPrec(prec).Quo(ss, n).Float64()
+			maxAbs := 0.0
+			for _, x := range xs {
+				maxAbs = math.Max(maxAbs, math.Abs(x))
+			}
+			// what float64 arithmetic may cost a careful one-pass or two-pass computation: the mean is only
+			// known to an ulp of the members, which moves every deviation by that much
+			ulp := math.Nextafter(maxAbs, math.Inf(1)) - maxAbs
+			tol := 1e-9*want + 16*maxDev*ulp + ulp*ulp
+			if op == "stddev" {
+				if want > 0 {
+					tol = tol/(2*math.Sqrt(want)) + 1e-9*math.Sqrt(want)
+				} else {
+					tol = math.Sqrt(tol)
+				}
+				want = math.Sqrt(want)
+			}
+			got := s.Points[0].V
+			if math.IsNaN(got) || got < 0 || math.Abs(got-want) > tol {
+				c.Fail("", fmt.Sprintf("%s: group %q = %v, the %s of its %d members %v is %v", text, g, got, op, len(xs), xs, want), det)
+				return
+			}
+			if len(xs) >= 2 {
+				c.Count("spread_groups_checked", 1)
+				c.Nontrivial(fmt.Sprintf("spread|%d|%s", c.Idx, g))
+			}
+		}
+	})
+	r.Require("spread_groups_checked", 200)
 
 	// input vectors with NaN members (unwrap of "NaN", which ParseFloat accepts). NaN has no rank, so only
 	// what every placement of NaN agrees on is demanded: top-k/bottom-k return min(k, n) series of the
